@@ -4,6 +4,20 @@ From Coq Require Import String.
 From CP Require Import Model.Base Generated.Consts Model.Ranges Model.Lex Model.RangeParse Model.DataFormat Model.Fields
   Model.FieldTypes Model.Cid Proofs.CidProofs.
 
+(* accepted if and only if every row is accepted in its turn (rows are judged in order, each against the state the rows
+   before it left) and, after the last row, a data format exists whose settings are consistent and at least one field is
+   declared; refused with an interface error if and only if some row is the first to be refused or those final conditions
+   fail. (What makes a single row acceptable is Model/Cid.v's row_step: the first cell dispatches to the data format, field
+   and check rules, whose sub-models C01 / C02 / C11 decide.) *)
+Theorem cid_is_accepted_iff_every_row_is : forall e rows s, cid_read e rows = CidOk s <->
+  steps e cstate0 rows = ROk s /\ (exists d, st_fmt s = Some d /\ validate_format d = true) /\ st_fields s <> [].
+Proof. exact cid_accepted_iff. Qed.
+Theorem cid_is_refused_iff_a_row_or_the_end_is : forall e rows, (exists n, cid_read e rows = CidInterface n) <->
+  (exists k s, (k < length rows)%nat /\ steps e cstate0 (firstn k rows) = ROk s /\ row_step e s (nth k rows []) = RInterface)
+  \/ (exists s, steps e cstate0 rows = ROk s /\
+        (st_fmt s = None \/ (exists d, st_fmt s = Some d /\ validate_format d = false) \/ st_fields s = [])).
+Proof. exact cid_refused_iff. Qed.
+
 (* whatever CID is accepted is structurally sound: exactly one known data format whose settings are consistent,
    at least one field, field names unique and well formed (ASCII letter, then letters/digits/underscores, no Python
    keyword), checks with unique non-empty descriptions whose rules name declared fields only *)
